@@ -7,6 +7,8 @@
 //	types       per type with a GetValueType method: the constant it returns, the stream calls of
 //	            Write and the stream / table calls of Read, in source order
 //	writeValue  the calls of WriteValue, readValue the calls of ReadValue
+//	pkgVars     the package-level vars of lang/value, io, util/hmap, util/hash; stateRefs: which function
+//	            bodies mention them and whether they write them (hidden cross-call state)
 //	guards      availability guards (CheckCount: consumes nothing, rejects only counts the remaining
 //	            bytes cannot satisfy) are kept out of the skeletons and listed per method
 //
@@ -105,6 +107,163 @@ func streamCalls(fd *ast.FuncDecl) []string {
 		}
 	}
 	return calls
+}
+
+// ---------------------------------------------------------------- package-level state
+
+// stateScan lists, for one package directory, its package-level `var` names and, per function or
+// method, the package-level vars its body mentions: "r:NAME" when it is only read, "w:NAME" when it
+// is assigned, incremented, indexed on the left of an assignment, appended to or has its address
+// taken.  Identifiers are resolved syntactically: a name that is declared locally (parameter,
+// := , var in the body) shadows the package-level one.
+func stateScan(repo, dir string) (vars []string, refs [][2]string) {
+	fset := token.NewFileSet()
+	pkgs, err := parser.ParseDir(fset, filepath.Join(repo, dir), func(fi os.FileInfo) bool { return !strings.HasSuffix(fi.Name(), "_test.go") }, 0)
+	if err != nil {
+		return []string{"?parse"}, nil
+	}
+	isVar := map[string]bool{}
+	var files []*ast.File
+	for _, p := range pkgs {
+		var names []string
+		for n := range p.Files {
+			names = append(names, n)
+		}
+		sort.Strings(names)
+		for _, n := range names {
+			files = append(files, p.Files[n])
+		}
+	}
+	for _, f := range files {
+		for _, d := range f.Decls {
+			if gd, ok := d.(*ast.GenDecl); ok && gd.Tok == token.VAR {
+				for _, sp := range gd.Specs {
+					for _, n := range sp.(*ast.ValueSpec).Names {
+						if n.Name != "_" {
+							isVar[n.Name] = true
+							vars = append(vars, n.Name)
+						}
+					}
+				}
+			}
+		}
+	}
+	sort.Strings(vars)
+	pkgLevel := func(id *ast.Ident) bool {
+		if !isVar[id.Name] {
+			return false
+		}
+		if id.Obj == nil {
+			return true // declared in another file of the package
+		}
+		if vs, ok := id.Obj.Decl.(*ast.ValueSpec); ok {
+			for _, f := range files {
+				for _, d := range f.Decls {
+					if gd, ok := d.(*ast.GenDecl); ok {
+						for _, sp := range gd.Specs {
+							if sp == ast.Spec(vs) {
+								return true
+							}
+						}
+					}
+				}
+			}
+		}
+		return false
+	}
+	rootIdent := func(e ast.Expr) *ast.Ident {
+		for {
+			switch x := e.(type) {
+			case *ast.Ident:
+				return x
+			case *ast.IndexExpr:
+				e = x.X
+			case *ast.SelectorExpr:
+				e = x.X
+			case *ast.StarExpr:
+				e = x.X
+			case *ast.ParenExpr:
+				e = x.X
+			case *ast.SliceExpr:
+				e = x.X
+			default:
+				return nil
+			}
+		}
+	}
+	for _, f := range files {
+		for _, d := range f.Decls {
+			fd, ok := d.(*ast.FuncDecl)
+			if !ok || fd.Body == nil {
+				continue
+			}
+			name := fd.Name.Name
+			if rt := recvType(fd); rt != "" {
+				name = rt + "." + name
+			}
+			written := map[string]bool{}
+			read := map[string]bool{}
+			selNames := map[*ast.Ident]bool{}
+			ast.Inspect(fd.Body, func(n ast.Node) bool {
+				switch x := n.(type) {
+				case *ast.SelectorExpr:
+					selNames[x.Sel] = true
+				case *ast.KeyValueExpr:
+					if id, ok := x.Key.(*ast.Ident); ok {
+						selNames[id] = true // struct literal field name
+					}
+				case *ast.AssignStmt:
+					for _, l := range x.Lhs {
+						if id := rootIdent(l); id != nil && pkgLevel(id) {
+							written[id.Name] = true
+						}
+					}
+				case *ast.IncDecStmt:
+					if id := rootIdent(x.X); id != nil && pkgLevel(id) {
+						written[id.Name] = true
+					}
+				case *ast.UnaryExpr:
+					if x.Op == token.AND {
+						if id := rootIdent(x.X); id != nil && pkgLevel(id) {
+							written[id.Name] = true
+						}
+					}
+				case *ast.CallExpr:
+					if fn, ok := x.Fun.(*ast.Ident); ok && (fn.Name == "append" || fn.Name == "copy" || fn.Name == "delete") && len(x.Args) > 0 {
+						if id := rootIdent(x.Args[0]); id != nil && pkgLevel(id) {
+							written[id.Name] = true
+						}
+					}
+				}
+				return true
+			})
+			ast.Inspect(fd.Body, func(n ast.Node) bool {
+				if id, ok := n.(*ast.Ident); ok && !selNames[id] && pkgLevel(id) {
+					read[id.Name] = true
+				}
+				return true
+			})
+			var names []string
+			for v := range read {
+				names = append(names, v)
+			}
+			sort.Strings(names)
+			for _, v := range names {
+				k := "r"
+				if written[v] {
+					k = "w"
+				}
+				refs = append(refs, [2]string{name, k + ":" + v})
+			}
+		}
+	}
+	sort.Slice(refs, func(i, j int) bool {
+		if refs[i][0] != refs[j][0] {
+			return refs[i][0] < refs[j][0]
+		}
+		return refs[i][1] < refs[j][1]
+	})
+	return
 }
 
 // type a constructor expression returns: NewXxx(...) → result type of func NewXxx
@@ -302,7 +461,18 @@ func main() {
 		parts := strings.SplitN(k, ".", 2)
 		fmt.Fprintf(&b, "(%s, %s, %s)", q(parts[0]), q(parts[1]), strList(guardsSeen[k]))
 	}
-	b.WriteString("]\n\nend Gen.C02\n")
+	b.WriteString("]\n\n")
+	b.WriteString("/-- package-level `var`s per package, and per function the package-level vars its body mentions\n    (r: read only, w: assigned / incremented / appended to / address taken) -/\n")
+	var pvs, rws []string
+	for _, dir := range []string{"lang/value", "io", "util/hmap", "util/hash"} {
+		vars, refs := stateScan(*repo, dir)
+		pvs = append(pvs, fmt.Sprintf("(%s, %s)", q(dir), strList(vars)))
+		for _, r := range refs {
+			rws = append(rws, fmt.Sprintf("(%s, %s, %s, %s)", q(dir), q(r[0]), q(r[1][:1]), q(r[1][2:])))
+		}
+	}
+	b.WriteString("def pkgVars : List (String × List String) :=\n  [" + strings.Join(pvs, ",\n   ") + "]\n\n")
+	b.WriteString("def stateRefs : List (String × String × String × String) :=\n  [" + strings.Join(rws, ",\n   ") + "]\n\nend Gen.C02\n")
 	if *out == "" {
 		fmt.Print(b.String())
 		return
